@@ -197,6 +197,9 @@ func genTx(pr *histProfile) func(t *rapid.T) hTx {
 			tx.Str = rapid.SampledFrom([]string{"0", "0.01", "0.1", "0.5", "1", "0.000000000000000001", "0.333333333333333333", "2"}).Draw(t, "severity")
 		case "param":
 			tx.Key = rapid.SampledFrom(append([]string{"nosuch/Key", "pos/NoSuchKey", "malformed"}, simParamKeys...)).Draw(t, "pkey")
+			if pr.GovHandover && rapid.IntRange(0, 4).Draw(t, "aclbias") == 0 {
+				tx.Key = "gov/acl"
+			}
 			tx.Str = genParamValue(t, tx.Key)
 			if rapid.IntRange(0, 11).Draw(t, "pkeysuffix") == 0 {
 				// a key with a trailing segment: it is no entry of the access-control list, though its first two
@@ -438,6 +441,18 @@ func applyAnchor(p *hProg, a int) {
 	}
 }
 
+// slashStateTemplates: a slash (burn request, downtime, conviction) meets the validator in every state of its life:
+// jailed, unstaking, jailed and unstaking, freshly re-staked - with small burns that leave it above the minimum
+var slashStateTemplates = [][]string{
+	{"downtime", "burn!", "wait", "unjail", "unstake", "wait"},
+	{"downtime", "unstake!", "burn!", "wait", "wait"},
+	{"unstake", "burn!", "burn!", "wait", "wait"},
+	{"stake", "downtime", "burn!", "burn!", "unjail", "wait"},
+	{"burn", "unstake!", "evidence!", "wait", "wait"},
+	{"unstake", "wait", "stake!", "burn!", "unstake", "wait"},
+	{"downtime", "raisemin!", "burn!", "unjail", "wait"},
+}
+
 // scriptGovTx: a parameter change sent by the parameter's current owner, timed by a script: the minimum stake raised
 // above / lowered back to what validators hold, the validator cap lowered below / raised above the set's size
 func scriptGovTx(t *rapid.T, action string, entropy int64) hTx {
@@ -575,7 +590,7 @@ func genValidatorScript(t *rapid.T, g *hGenesis, templates [][]string, gov []str
 			tx.Rel, tx.Amt = "min", int64(rapid.IntRange(0, 2000000).Draw(t, "sstake"))
 		case "burn":
 			tx.From = rapid.IntRange(0, 9).Draw(t, "sburner")
-			tx.Str = rapid.SampledFrom([]string{"0.01", "0.5", "1", "0"}).Draw(t, "ssev")
+			tx.Str = rapid.SampledFrom([]string{"0.01", "0.01", "0.000001", "0.5", "1", "0"}).Draw(t, "ssev")
 		case "burn1":
 			tx.Kind = "burn"
 			tx.From = rapid.IntRange(0, 9).Draw(t, "sburner1")
